@@ -60,6 +60,7 @@ const ABC: [&str; 3] = ["a", "b", "c"];
 #[test] fn nb_peg_repmmfail() { sweep("nb_peg_repmmfail", &ABC, 8, |s| cmp::<GRepMMFail<'_>, XRepMMFail>(s)); }
 #[test] fn nb_peg_repnoprogress() { sweep("nb_peg_repnoprogress", &ABC, 7, |s| cmp::<GRepNoProgress<'_>, XRepNoProgress>(s)); }
 #[test] fn nb_peg_repnullable() { sweep("nb_peg_repnullable", &ABC, 7, |s| cmp::<GRepNullable<'_>, XRepNullable>(s)); }
+#[test] fn nb_peg_skippush() { sweep("nb_peg_skippush", &ABC, 7, |s| cmp::<GSkipPush<'_>, XSkipPush>(s)); }
 #[test] fn nb_peg_nest() { sweep("nb_peg_nest", &AB_, 8, |s| cmp::<GNest, XNest>(s)); }
 
 // ---- C17: repetition iterators yield the iterations in input order ------------------------------------------------
